@@ -82,6 +82,7 @@ class Executor:
         self.loop_ids: dict = {}  # (function, line, column) of a loop / comprehension -> ordinal given to Spec.inv
         self._solver = z3.Solver()
         self._solver.set("timeout", 1000)
+        self._retry_budget = 45.0
         self.covers = 0
         self.old: State | None = None
         self.a: dict = {}
@@ -106,6 +107,16 @@ class Executor:
             if extra is not None:
                 s.add(extra)
             r = s.check()
+            if r == z3.unknown and self._retry_budget > 0:
+                # the quick budget (1 s) is easily exceeded when all cores are busy: a patient retry keeps path pruning (and with it the
+                # vacuity probe) independent of machine load; the total time spent on retries is capped per unit
+                import time as _t
+
+                t0 = _t.time()
+                s.set("timeout", 6000)
+                r = s.check()
+                s.set("timeout", 1000)
+                self._retry_budget -= _t.time() - t0
         finally:
             s.pop()
         return r != z3.unsat
@@ -738,6 +749,19 @@ class Executor:
 
     def e_Lambda(self, e, st):
         return [Res("val", VOpaque("lambda"), st)]
+
+    def e_Set(self, e, st):
+        """{a, b, ...}: a fresh set object holding the elements."""
+        acc, raises = self.eval_many(e.elts, st)
+        out = list(raises)
+        for vals, s in acc:
+            r = s.new_object("set")
+            dom = z3.K(z3.IntSort(), z3.BoolVal(False))
+            for v in vals:
+                dom = z3.Store(dom, z_int(v), z3.BoolVal(True))
+            s.dict_store(r, dom, z3.K(z3.IntSort(), z3.IntVal(0)))
+            out.append(Res("val", VRef(r, "set", ("set", "ref")), s))
+        return out
 
     def e_Dict(self, e, st):
         if not e.keys:
